@@ -1,21 +1,30 @@
 -------------------------- MODULE ChanHammerTrace --------------------------
-(* Judges the summary events of drive_hammer (free-running sender thread against a spinning loop thread, many short      *)
-(* rounds) with the clauses of the channel contract that need no interleaving information (C04; C02 for the stranded    *)
-(* message): once send() has returned, the next dispatch delivers the message; order; a single Closed at the end.       *)
+(* Judges the summary events of drive_hammer (a free-running thread against a spinning loop thread, many short rounds)  *)
+(* with the clauses of the channel / ping / executor contracts that need no interleaving information: once send() /     *)
+(* ping() / wake() has returned, the next dispatch delivers the message / runs the callback / polls the future (C04,    *)
+(* C03, C10; C02 for the stranded cause); order; a single Closed / a single result at the end.                          *)
 EXTENDS Naturals, Integers, Sequences, FiniteSets, TLC, Json, IOUtils
 Rec == ndJsonDeserialize(IOEnv.TRACE)
 VARIABLES l, st
 vars == <<l, st>>
 Empty0 == [nscn |-> 0, viol |-> {}]
 V(ps, c, ln, scn) == {[p |-> x, c |-> c, l |-> ln, scn |-> scn] : x \in ps}
+Props(ev) == IF ev.kind = "chan" THEN {"C04", "C02"} ELSE IF ev.kind = "ping" THEN {"C03", "C02"} ELSE {"C10", "C02"}
+Own(ev) == Props(ev) \ {"C02"}
 StepH(s, ev, ln) ==
   IF ev.e # "hammer" THEN s ELSE
   [s EXCEPT !.nscn = @ + 1,
-            !.viol = @ \cup (IF ev.stranded_round >= 0 THEN V({"C04", "C02"}, "message_stranded_after_send_returned", ln, ev.id) ELSE {})
-                       \cup (IF ev.in_order = 0 THEN V({"C04"}, "sender_order_violated", ln, ev.id) ELSE {})
-                       \cup (IF ev.errs > 0 THEN V({"C04"}, "dispatch_failed", ln, ev.id) ELSE {})
-                       \cup (IF ev.closed # 1 THEN V({"C04"}, "closed_not_delivered_once", ln, ev.id) ELSE {})
-                       \cup (IF ev.stranded_round < 0 /\ ev.received # 2 * ev.rounds THEN V({"C04"}, "message_lost_or_duplicated", ln, ev.id) ELSE {})]
+            !.viol = @ \cup (IF ev.stranded_round >= 0
+                              THEN V(Props(ev), IF ev.kind = "chan" THEN "message_stranded_after_send_returned"
+                                                ELSE IF ev.kind = "ping" THEN "ping_not_delivered_after_ping_returned"
+                                                ELSE "woken_future_not_polled_after_wake_returned", ln, ev.id) ELSE {})
+                       \cup (IF ev.in_order = 0 THEN V(Own(ev), "sender_order_violated", ln, ev.id) ELSE {})
+                       \cup (IF ev.errs > 0 THEN V(Own(ev), "dispatch_failed", ln, ev.id) ELSE {})
+                       \* chan: one Closed after the last sender is gone; exec: the one result delivered once
+                       \cup (IF ev.kind # "ping" /\ ev.closed # 1 THEN V(Own(ev), IF ev.kind = "chan" THEN "closed_not_delivered_once" ELSE "exec_result_not_delivered_once", ln, ev.id) ELSE {})
+                       \* the round in progress at a time-out is not judged (the sender may be anywhere in it)
+                       \cup (IF ev.kind = "chan" /\ ev.stranded_round < 0 /\ ev.timed_out = 0 /\ ev.received # 2 * ev.rounds
+                             THEN V(Own(ev), "message_lost_or_duplicated", ln, ev.id) ELSE {})]
 TInit == l = 1 /\ st = Empty0
 TNext == l <= Len(Rec) /\ st' = StepH(st, Rec[l], l) /\ l' = l + 1
 Verdict == l = Len(Rec) + 1 => PrintT(<<"VERDICT", ToJson([n |-> Len(Rec), scenarios |-> st.nscn, misuse |-> 0, viol |-> st.viol])>>)
